@@ -50,6 +50,7 @@ type blockFixture struct {
 	fresh                      int
 	poor                       *itutiltypes.TestAccount // wallet with a tiny balance
 	vester                     *itutiltypes.TestAccount // a sender that is a vesting account
+	freeGas                    bool                     // the chain with base fee 0 and minimum gas price 0
 	maxGas                     int64
 	nonces                     map[int]uint64 // optimistic next nonce per wallet index
 	heavy                      bool
@@ -135,6 +136,7 @@ func newBlockFixture(t *testing.T, maxGas int64) *blockFixture {
 	f.poor = c.s.CreateAccount()
 	fund(f.poor.GetEthAddress(), c.evmDenom, 30_000_000_000_000) // 21000 gas at 1 gwei = 2.1e13
 	if blockFixtureFreeGas {
+		f.freeGas = true
 		fk := c.s.ChainApp.FeeMarketKeeper()
 		fp := fk.GetParams(ctx)
 		fp.BaseFee = sdkmath.ZeroInt()
@@ -196,7 +198,7 @@ func TestEngineBlock(t *testing.T) {
 	runBlocks(t, f, rng, p, nTx-nTx/6)
 	// a second chain on which gas is free (base fee 0, minimum gas price 0): the effective price is the tip alone
 	blockFixtureFreeGas = true
-	f2 := newBlockFixture(t, maxGas)
+	f2 := newBlockFixture(t, 20*maxGas) // a gas target that the generated blocks stay below: the base fee stays 0
 	blockFixtureFreeGas = false
 	defer f2.c.s.Cleanup()
 	runBlocks(t, f2, rng, p, nTx/6)
@@ -226,7 +228,7 @@ func runBlocks(t *testing.T, f *blockFixture, rng *hx.Rng, p *hx.Proto, nTx int)
 		_ = supplyBefore
 
 		n := 1 + rng.Intn(10)
-		heavy := f.maxGas > 0 && rng.Chance(1, 5)
+		heavy := f.maxGas > 0 && rng.Chance(1, 5) && !f.freeGas // (a block above the gas target would move the base fee off zero for good)
 		var txs []genTx
 		for i := 0; i < n; i++ {
 			f.heavy = heavy && rng.Chance(2, 3)
